@@ -6,6 +6,13 @@
 //! `Layout::{new, is_zero_sized, size, align, union}` and
 //! `LayoutBuilder::{new, add, finish}`.
 //!
+//! `layoutloops` → `Generated/LayoutLoops.lean`: the constants the five
+//! independently written enum loops start from — the `Layout::of::<uN>()` tag
+//! each of `Pool::layout_of`, `Lowerer::location`,
+//! `generate_{clone,drop,eq}_body_enum` adds first — and `layout_of`'s layout
+//! of `()`. The model's loops use their own constant; the theorems need them
+//! equal, so changing one of them in the source breaks the proofs.
+//!
 //! `usize` is rendered as `Nat` (no wrap-around: layouts of real types are far
 //! below 2^64; stated as an assumption of C02). A `&mut self` method returns
 //! the pair `(self', result)`. Std methods get their meaning once, in
@@ -17,7 +24,10 @@ use crate::find;
 use quote::ToTokens;
 use std::path::Path;
 
-pub const TARGETS: &[Target] = &[("layout", "LayoutGen", layout as Gen)];
+pub const TARGETS: &[Target] = &[
+    ("layout", "LayoutGen", layout as Gen),
+    ("layoutloops", "LayoutLoops", layoutloops as Gen),
+];
 
 type R = Result<String, String>;
 
@@ -276,5 +286,74 @@ fn layout(repo: &Path) -> R {
         s += &format!("def {ty}.{lean}{sp}{binders} : {rt} :=\n{b}\n\n");
     }
     s += "end RotoV.Gen.LayoutGen\n";
+    Ok(s)
+}
+
+struct TagFinder {
+    found: Vec<String>,
+}
+impl<'ast> syn::visit::Visit<'ast> for TagFinder {
+    fn visit_expr_call(&mut self, c: &'ast syn::ExprCall) {
+        let f = norm(&c.func);
+        if let Some(t) = f.strip_prefix("Layout::of::<").and_then(|r| r.strip_suffix('>')) {
+            if c.args.is_empty() {
+                self.found.push(t.to_string());
+            }
+        }
+        syn::visit::visit_expr_call(self, c);
+    }
+}
+
+fn int_bytes(t: &str) -> Option<usize> {
+    Some(match t {
+        "u8" | "i8" => 1,
+        "u16" | "i16" => 2,
+        "u32" | "i32" => 4,
+        "u64" | "i64" => 8,
+        _ => return None,
+    })
+}
+
+fn layoutloops(repo: &Path) -> R {
+    use syn::visit::Visit;
+    let fns: &[(&str, &str, Option<&str>, &str)] = &[
+        ("src/mir/ty.rs", "layout_of", Some("Pool"), "tag_layout_of"),
+        ("src/lir/lower.rs", "location", Some("Lowerer"), "tag_location"),
+        ("src/lir/lower/clones.rs", "generate_clone_body_enum", Some("Lowerer"), "tag_clone"),
+        ("src/lir/lower/drops.rs", "generate_drop_body_enum", Some("Lowerer"), "tag_drop"),
+        ("src/lir/lower/eq.rs", "generate_eq_body_enum", Some("Lowerer"), "tag_eq"),
+    ];
+    let mut s = String::from(
+        "/- GENERATED by /verif/extract from src/mir/ty.rs, src/lir/lower.rs, src/lir/lower/{clones,drops,eq}.rs — do not edit. -/\nimport RotoV.Generated.LayoutGen\nnamespace RotoV.Gen.LayoutLoops\nopen RotoV.Gen.LayoutGen\n\n",
+    );
+    for (rel, name, imp, lean) in fns {
+        let file = find::parse(repo, rel)?;
+        let f = find::func(&file, name, *imp)?;
+        let mut tf = TagFinder { found: vec![] };
+        tf.visit_block(&f.block);
+        let ints: Vec<&String> = tf.found.iter().filter(|t| int_bytes(t).is_some()).collect();
+        if ints.len() != 1 {
+            return Err(format!(
+                "{rel}::{name}: expected exactly one `Layout::of::<integer>()` (the enum tag), found {:?}",
+                tf.found
+            ));
+        }
+        let b = int_bytes(ints[0]).unwrap();
+        s += &format!(
+            "/-- `Layout::of::<{}>()` in `{name}` ({rel}) -/\ndef {lean} : Layout := Layout.new {b} {b}\n\n",
+            ints[0]
+        );
+    }
+    // `Ty::Unit => Layout::new(0, 1)` in layout_of
+    let file = find::parse(repo, "src/mir/ty.rs")?;
+    let f = find::func(&file, "layout_of", Some("Pool"))?;
+    let ms = find::matches_on(&f.block, "self.get(ty)");
+    if ms.len() != 1 {
+        return Err(format!("layout_of: expected one `match self.get(ty)`, found {}", ms.len()));
+    }
+    let arm = find::arm_for(&ms[0], "Unit")?;
+    let body = expr(&arm.body).map_err(|e| format!("layout_of Ty::Unit arm: {e}"))?;
+    s += &format!("/-- `Ty::Unit => …` in `layout_of` -/\ndef unit_layout : Layout := {body}\n\n");
+    s += "end RotoV.Gen.LayoutLoops\n";
     Ok(s)
 }
